@@ -122,10 +122,18 @@ fn roundtrip<T: Chain>(u: &mut U, name: &'static str) -> (Vec<u8>, CheckResult) 
     (to_bytes(&v), check_value(&v, name, true))
 }
 
+/// Findings whose fix has been committed to `/repo`: their exclusion is permanently off, so the check
+/// reports them again if they return (the reproducers stay in the corpus). Add `"F5ab"`, `"F5c"`,
+/// `"F7"` here when they are fixed.
+const FIXED_IN_REPO: &[&str] = &["F6", "F5ab", "F5c", "F7"];
+
 /// `C05_STRICT_FINDINGS=1` (all) or a comma separated subset of `F5ab,F5c,F6,F7,O5` switches the
 /// corresponding exclusion off, so that the reported defects can be reproduced with the reproducers
 /// kept in the corpus.
 fn strict(which: &str) -> bool {
+    if FIXED_IN_REPO.contains(&which) {
+        return true;
+    }
     static V: std::sync::OnceLock<String> = std::sync::OnceLock::new();
     let v = V.get_or_init(|| std::env::var("C05_STRICT_FINDINGS").unwrap_or_default());
     v == "1" || v.split(',').any(|x| x == which)
@@ -661,10 +669,12 @@ fn canon_oracle(c: &ByteCase, ctx: &mut Ctx) -> CheckResult {
                     ctx.class("excluded-observation:O5-version-varint-accepts-padding");
                     return Ok(());
                 }
-                if !strict("F6") && explained_by_infinity_flag(&c.input[..consumed], &reenc) {
+                let f6 = explained_by_infinity_flag(&c.input[..consumed], &reenc);
+                if f6 && !strict("F6") {
                     ctx.class("excluded-known:F6-bls-infinity-flag-ignores-other-bits");
                     return Ok(());
                 }
+                let sig = if f6 { "canon:bls-infinity-flag-ignores-other-bits".to_string() } else { format!("canon:{name}") };
                 return Err(Violation::new(
                     "canon",
                     format!(
@@ -674,7 +684,7 @@ fn canon_oracle(c: &ByteCase, ctx: &mut Ctx) -> CheckResult {
                         short_hex(&reenc)
                     ),
                 )
-                .with_signature(format!("canon:{name}")));
+                .with_signature(sig));
             }
             if !c.mutated && c.how == "valid" {
                 vensure!(consumed == c.input.len(), "canon-valid-consumed", "type {name}: valid encoding not fully consumed");
@@ -823,7 +833,7 @@ pub fn property() -> Property {
             "types without public constructors (range proofs, sigma-protocol responses, baker key proofs) are produced by decoding an encoding assembled field by field from valid scalars and points; for them the round-trip starts from the decoder's image",
             "equality of decoded and original value is PartialEq where the type offers it, otherwise equality of re-encodings (all fields are serialised)",
             "allocation is measured on the decoding thread with a counting global allocator; bound 64*len(input) + 4 MiB",
-            "inputs matching the reported defects F5a-c (unbounded up-front allocation for u32/u64-declared lengths: Description, genesis_string, RawCbor, ProtocolUpdate url), F6 (BLS12-381 infinity flag ignores the remaining bits) and F7 (BlockItem::AccountTransactionV1 has no decoder) are excluded by exact signature and counted (classes excluded-known:*); C05_STRICT_FINDINGS=1 disables the exclusions",
+            "inputs matching the reported defects F5a-c (unbounded up-front allocation for u32/u64-declared lengths: Description, genesis_string, RawCbor, ProtocolUpdate url), and F7 (BlockItem::AccountTransactionV1 has no decoder) are excluded by exact signature and counted (classes excluded-known:*); C05_STRICT_FINDINGS=1 disables the exclusions; F6 (BLS12-381 infinity flag ignored the remaining bits) is fixed in /repo (512f728a1) and no longer excluded",
         ],
         targets: vec![
             Target::new("roundtrip", t_roundtrip).len(8, 1400).cases(200_000, 6_000_000).floors(&[
